@@ -19,15 +19,18 @@ extern int verif_exc;
 #define VERIF_ASSERT(c, msg) __CPROVER_assert((c), msg)
 #define VERIF_ASSUME(c) __CPROVER_assume(c)
 #define VERIF_REACH(msg) __CPROVER_assert(0, msg)
+#define VERIF_GHOST(...) __VA_ARGS__
 size_t nondet_size_t(void);
 int nondet_int(void);
 _Bool nondet_bool(void);
+#define VERIF_WANT_FORMAT 1
 #else
 #include <stdio.h>
 static void verif_fail(const char* msg) { fprintf(stderr, "VERIF_ASSERT failed: %s\n", msg); abort(); }
 #define VERIF_ASSERT(c, msg) ((c) ? (void)0 : verif_fail(msg))
 #define VERIF_ASSUME(c) ((void)0)
 #define VERIF_REACH(msg) ((void)0)
+#define VERIF_GHOST(...)
 #endif
 #ifndef VERIF_MAXBUF
 #define VERIF_MAXBUF 0x7fffffffUL   /* SQLite's hard blob limit (2^31 - 1): no database can hand the decoders more */
@@ -112,5 +115,8 @@ static void* verif_alloc(size_t n, size_t sz)
 /* natively an absurd-but-legal reserve/resize would exhaust memory: report bad_alloc like libstdc++ does */
 #define VERIF_NATIVE_RESERVE_GUARD(n, T) if ((n) > ((size_t)1 << 31) / sizeof(T)) { verif_exc = EXC_std_bad_alloc; return; }
 #endif
+#endif
+#ifdef VERIF_WANT_FORMAT
+#include "verif_format.h"
 #endif
 #endif
